@@ -177,7 +177,7 @@ def eval_program(mod: ast.Module):
             name = _compat_pickle.NAME_MAPPING.get(("__builtin__", name), ("builtins", name))[1]
             if hasattr(builtins, name) and name in ("set", "frozenset", "list", "dict", "tuple", "bytearray", "complex", "range", "slice", "object", "int", "float", "str", "bytes", "bool", "len", "getattr"):
                 return getattr(builtins, name)
-            raise ProgramError(f"name {e.id} is not defined in the decompiled program")
+            raise NameError(f"name '{e.id}' is not defined in the decompiled program")
         if isinstance(e, (ast.List, ast.Tuple, ast.Set)):
             vals = []
             for x in e.elts:
@@ -319,11 +319,11 @@ def run_world(repo: Repo, oe, label: str, data: bytes, value_check: bool) -> Lis
         except RecursionError:
             return devs
         except Exception as e:
-            group = label[len("pickle.dumps("):].split(",")[0] if label.startswith("pickle.dumps(") else label
+            group = label[len("pickle.dumps("):].split(",")[0] if label.startswith("pickle.dumps(") else "assembled-program" if label.startswith("asm:") else label
             devs.append((f"program-fails:{type(e).__name__}:{group}", f"{label}: evaluating the decompiled program raises {type(e).__name__}: {str(e)[:80]} (the real unpickler builds {repr(expected)[:60]})"))
             return devs
         if not same_value(expected, got):
-            group = label[len("pickle.dumps("):].split(",")[0] if label.startswith("pickle.dumps(") else label
+            group = label[len("pickle.dumps("):].split(",")[0] if label.startswith("pickle.dumps(") else "assembled-program" if label.startswith("asm:") else label
             if NODE_AS_CONSTANT:
                 group = "node-as-constant:" + "+".join(sorted(NODE_AS_CONSTANT))
             devs.append((f"value-differs:{group}", f"{label}: the decompiled program denotes {repr(got)[:70]}, the real unpickler builds {repr(expected)[:70]}"))
@@ -365,6 +365,63 @@ def _walk(root: ast.AST):
     return list(seen.values()), cyclic
 
 
+# ------------------------------------------------------------------------------------------------------------------------
+# assembled programs: bounded-exhaustive enumeration over a typed opcode alphabet, filtered by CPython's own unpickler
+# ------------------------------------------------------------------------------------------------------------------------
+TOKENS = dict([
+    ("K1", b"K\x01"), ("K2", b"K\x02"), ("NONE", b"N"), ("U", b"\x8c\x01a"),
+    ("EMPTY_LIST", b"]"), ("EMPTY_DICT", b"}"), ("EMPTY_TUPLE", b")"), ("MARK", b"("),
+    ("TUPLE", b"t"), ("LIST", b"l"), ("DICT", b"d"), ("TUPLE1", b"\x85"), ("TUPLE2", b"\x86"),
+    ("APPEND", b"a"), ("APPENDS", b"e"), ("SETITEM", b"s"), ("SETITEMS", b"u"),
+    ("POP", b"0"), ("POP_MARK", b"1"), ("DUP", b"2"),
+    ("BINPUT0", b"q\x00"), ("BINPUT1", b"q\x01"), ("BINPUT5", b"q\x05"), ("BINGET0", b"h\x00"), ("BINGET1", b"h\x01"), ("BINGET5", b"h\x05"), ("MEMOIZE", b"\x94"),
+    ("G_LEN", b"cbuiltins\nlen\n"), ("G_OD", b"ccollections\nOrderedDict\n"), ("REDUCE", b"R"), ("NEWOBJ", b"\x81"), ("OBJ", b"o"), ("BUILD", b"b"),
+])
+MEMO_ALPHABET = ["K1", "EMPTY_LIST", "BINPUT0", "BINPUT1", "BINGET0", "BINGET1", "MEMOIZE", "POP", "TUPLE2", "APPEND"]
+CALL_ALPHABET = ["G_LEN", "G_OD", "EMPTY_TUPLE", "U", "TUPLE1", "REDUCE", "NEWOBJ", "OBJ", "MARK", "POP", "DUP", "BUILD", "EMPTY_DICT"]
+
+
+def _valid_programs(alphabet, length: int):
+    """Every sequence of `length` tokens (framed by PROTO 4 and STOP) that CPython's own unpickler runs to completion: the only
+    globals in the alphabet are builtins.len and collections.OrderedDict, so this unpickling is inert.  Sequences in which
+    APPENDS / SETITEMS get an empty slice are left out: the C unpickler treats them as no-ops whatever lies below, which no
+    typed assembler (and no pickler) produces."""
+    import itertools
+
+    for seq in itertools.product(alphabet, repeat=length):
+        data = b"\x80\x04" + b"".join(TOKENS[n] for n in seq) + b"."
+        if b"(e" in data or b"(u" in data:
+            continue
+        try:
+            pickle.loads(data)
+        except Exception:
+            continue
+        yield " ".join(seq), data
+
+
+def assembled(tier: str):
+    out = []
+    for L in (1, 2, 3):
+        out += list(_valid_programs(list(TOKENS), L))
+    out += list(_valid_programs(MEMO_ALPHABET, 4))
+    m5 = list(_valid_programs(MEMO_ALPHABET, 5))
+    c4 = list(_valid_programs(CALL_ALPHABET, 4))
+    if tier == "thorough":
+        out += m5 + c4
+        out += list(_valid_programs(list(TOKENS), 4))
+        out += list(_valid_programs(MEMO_ALPHABET, 6))[::4]
+        out += list(_valid_programs(CALL_ALPHABET, 5))[::4]
+    else:
+        out += m5[::3] + c4[::4]
+    seen = set()
+    uniq = []
+    for label, data in out:
+        if data not in seen:
+            seen.add(data)
+            uniq.append((label, data))
+    return uniq
+
+
 _VREPO = None
 
 
@@ -372,9 +429,16 @@ def _vchunk(items):
     from .props.c06 import _fresh_objeval
 
     out = []
+    shared = None
     for label, data, vc in items:
         try:
-            oe = _fresh_objeval(_VREPO)
+            if label.startswith("asm:"):
+                # assembled programs are decompiled one after the other in one interpreter, like pickles in one process
+                shared = shared or _fresh_objeval(_VREPO)
+                oe = shared
+                oe.steps = 0
+            else:
+                oe = _fresh_objeval(_VREPO)
             out.append(("ok", run_world(_VREPO, oe, label, data, vc)))
         except Unsupported as e:
             out.append(("unsupported", f"{label}: {e}"))
@@ -396,6 +460,7 @@ def explore(repo: Repo, tier: str):
     _VREPO = repo
     corpus = _corpus(tier)
     items = [(label, data, label.startswith("pickle.dumps(") or label in VALUE_SAFE_HAND) for label, data in corpus]
+    items += [("asm:" + label, data, True) for label, data in assembled(tier)]
     jobs = min(int(os.environ.get("SA_JOBS", "16")), os.cpu_count() or 1)
     chunks = [items[i::jobs] for i in range(jobs)]
 
@@ -440,4 +505,4 @@ def report(repo: Repo, rep, rule: str, tier: str, keys):
     for key, (c, msg) in sorted(found.items()):
         if any(key.startswith(k) for k in keys):
             rep.bad(rule, it.qualname, key, f"{msg} [{c} input(s)]", it.module.relpath, it.node.lineno)
-    rep.ok(rule, it.qualname, f"{n} byte strings (the C06 corpus) decompiled by the interpreted Interpreter and compared with the reference unpickling machine built from pickletools' stack-effect table (depth, mark positions and memo keys after every opcode; calls and resolved globals) and, where CPython's unpickler loads them, with the value it builds", "", nontrivial=True)
+    rep.ok(rule, it.qualname, f"{n} byte strings (the C06 corpus, and every program CPython's unpickler accepts among all sequences of up to 3 tokens of a 33-token opcode alphabet and of 4-5 tokens of a memo-centred and a call-centred alphabet; thorough: up to 4 of the full alphabet, 6 and 5 of the focused ones) decompiled by the interpreted Interpreter and compared with the reference unpickling machine built from pickletools' stack-effect table (depth, mark positions and memo keys after every opcode; calls and resolved globals) and, where CPython's unpickler loads them, with the value it builds", "", nontrivial=True)
